@@ -319,6 +319,9 @@ func (w *workerState) runCase(c *Case) (res *Result) {
 	if c.Mode == "parse" || c.WantA {
 		if !utils.HadError && stmts != nil {
 			res.Ast = absProgram(stmts)
+			if c.Trace {
+				res.Ast = specTree(absProgram(stmts)) // the shape TraceSem executes
+			}
 		}
 	}
 	if c.Mode == "parse" {
